@@ -55,6 +55,21 @@ def r1_persist_before_raise(ctx):
     spsl = Slicer(sp, alias_defs=False)
     ok = bool(calls) and all("arg:2" in spsl.slice_operand(t["args"][0])[0] for s, t in calls)
     ctx.ob("C12.R1", "forwards-config", ok, "StepError::persist_failure passes its own `config` argument to persist_failure", loc=sp.loc())
+    # ... for EVERY kind of failure: the only way around the call is the silent ContinueAfter exit, i.e. a branch on config.max_steps.
+    # (The panic hook is not a substitute: a payload re-raised with resume_unwind never runs it, and a failure that reaches the runner
+    # after further scheduling points is longer than the prefix the hook saw.)
+    cs = set(s for s, t in calls)
+    ms_sw = set()
+    slp = Slicer(sp, alias_defs=False)
+    for bb in range(len(sp.blocks)):
+        t = sp.term(bb)
+        if t.get("k") == "switch" and kinds.discr_subject_field(sp, slp, t["discr"]) == "shuttle_engine::config::Config.max_steps":
+            ms_sw.add(bb)
+    w = sp.path_exists(None, sp.is_return, lambda x: x in cs, edge_ok=lambda a, nb: a not in ms_sw)
+    ctx.ob("C12.R1", "persists-every-failure-kind", bool(calls) and w is None,
+           "StepError::persist_failure reaches persist_failure on every path that does not go through the test of config.max_steps (ContinueAfter)" if (calls and w is None) else
+           "StepError::persist_failure can return without persisting and without having looked at config.max_steps: some kind of failure is raised to the "
+           "caller with no schedule emitted for it", loc=sp.loc())
     rb = ctx.body(RUN, "C12.R1")
 
 
